@@ -58,10 +58,12 @@ def atoi (s : Bytes) : Option Int :=
       | some n => if n < 9223372036854775808 then some (n : Int) else none
       | none => none
 
+def digitByte (d : Nat) : UInt8 := (48 + d).toUInt8
+
 /-- `%d` of a non-negative number, most significant digit first (`fuel` ≥ number of digits). -/
 def decDigits : Nat → Nat → Bytes
   | 0, _ => []
-  | f + 1, n => if n < 10 then [(48 + n).toUInt8] else decDigits f (n / 10) ++ [(48 + n % 10).toUInt8]
+  | f + 1, n => if n < 10 then [digitByte n] else decDigits f (n / 10) ++ [digitByte (n % 10)]
 
 def natToDec (n : Nat) : Bytes := decDigits (n + 1) n
 
